@@ -56,7 +56,10 @@ def run_index(ctx: core.Ctx, prop: str, p_malformed: float, only: list | None = 
 
     def one_history(meta, requests_fn, tag):
         na, nd, ns, limits = meta
-        comp = ic.make_component(na, nd, ns, limits)
+        # some components use a model that always fails at the finest model fidelity (only where a coarser one exists)
+        fail_alpha = tuple(limits[:na]) if (tag == 'random' and na >= 1 and limits[0] >= 1 and rng.random() < 0.3) else None
+        comp = ic.make_component(na, nd, ns, limits, fail_alpha=fail_alpha)
+        probe = {f'x{k}': np.array([0.21, 0.68]) for k in range(nd)}
         hist = []
         lines.append('idx.box ' + ic.show_idx(limits))
         expect.append((len(cases), 'box', 'ok'))
@@ -68,17 +71,40 @@ def run_index(ctx: core.Ctx, prop: str, p_malformed: float, only: list | None = 
             try:
                 comp.activate_index(a, b)
             except Exception as e:  # noqa: BLE001
-                res.failures.append({'kind': 'activation-raised', 'input': {'box': meta, 'requests': hist},
+                res.failures.append({'kind': 'activation-raised', 'input': {'box': meta, 'requests': hist, 'failing_fidelity': fail_alpha},
                                      'observed': type(e).__name__ + ': ' + str(e)[:300]})
                 break
             after = ic.canon_state(comp)
             res.hit('req-' + kind)
             lines.append('idx.act ' + ic.show_idx(r))
             expect.append((len(cases), step, after))
+            # read-only calls between activations (also with the component's OWN set objects as arguments) must leave the
+            # index sets and both weight trees untouched
+            if comp.active_set and step % 2 == 0:
+                calls = [('predict(test)', lambda: comp.predict(probe, index_set='test')),
+                         ('predict(index_set=active_set)', lambda: comp.predict(probe, index_set=comp.active_set)),
+                         ('gradient', lambda: comp.gradient(probe, index_set='train'))]
+                if comp.candidate_set:
+                    calls.append(('predict(index_set=candidate_set, incremental=True)',
+                                  lambda: comp.predict(probe, index_set=comp.candidate_set, incremental=True)))
+                for cname, call in calls:
+                    try:
+                        call()
+                    except Exception:  # noqa: BLE001   (values are not the subject here; failing models may make predict raise)
+                        pass
+                    now = ic.canon_state(comp)
+                    if now != after:
+                        res.failures.append({'kind': 'read-only-call-changed-the-index-state',
+                                             'input': {'box': meta, 'requests': list(hist), 'call': cname,
+                                                       'failing_fidelity': fail_alpha},
+                                             'observed': now, 'expected': after})
+                        break
+                res.hit('read-only-calls')
             # property oracles on the real state
             msg = ic.oracle_c01(comp) if prop == 'C01' else ic.oracle_c02(comp, limits)
             if msg:
-                res.failures.append({'kind': 'oracle', 'input': {'box': meta, 'requests': list(hist)}, 'observed': msg})
+                res.failures.append({'kind': 'oracle', 'input': {'box': meta, 'requests': list(hist), 'failing_fidelity': fail_alpha},
+                                     'observed': msg})
             if prop == 'C02' and kind in ('already-active', 'non-candidate', 'outside-box', 'zero-again', 'nonzero-first'):
                 if before != after:
                     res.failures.append({'kind': 'rejected-request-changed-state',
@@ -97,7 +123,9 @@ def run_index(ctx: core.Ctx, prop: str, p_malformed: float, only: list | None = 
             step += 1
         # look-ahead + value-level checks on the final state
         A, C, T, E = ic.py_sets(comp)
-        if prop == 'C01' and A:
+        if fail_alpha is not None:
+            res.hit('component-with-failing-fidelity')
+        if prop == 'C01' and A and fail_alpha is None:
             x, combo = _value_checks(comp, na, nd, rng, None, C, res, hist, res.failures)
             for c in sorted(C)[:3]:
                 lines.append('idx.look ' + ic.show_idx(c))
